@@ -107,6 +107,8 @@ def _history_generation(ctx, target, nhist):
         if kind in ("same-process", "repeat"):
             for _ in range(ctx.rng.randint(1, 3)):
                 hist.append([ctx.rng.choice(names), ctx.rng.randint(1, 4), None])
+            if not any(c[1] >= 3 for c in hist):
+                hist[0][1] = ctx.rng.choice([3, 4])      # at least one earlier call that runs every stage of generation (check_results needs n > 2)
             if kind == "repeat":
                 hist.append([runname, compl, None])
             calls = hist + [[runname, compl, None]]
@@ -182,9 +184,10 @@ def _history_fitting(ctx, nhist):
 
 def run(ctx):
     deep = not ctx.quick
-    targets = [("core_maths", 4)] if not deep else [("core_maths", 4), ("ext_maths", 3), ("core_maths", 5)]
+    # base_e_maths n=4: check_results un-merges several functions there, so the order of its seeded shuffle is observable
+    targets = [("core_maths", 4), ("base_e_maths", 4)] if not deep else [("core_maths", 4), ("base_e_maths", 4), ("ext_maths", 3), ("keep_duplicates", 4), ("core_maths", 5)]
     for t in targets:
-        _history_generation(ctx, t, 5 if not deep else 14)
+        _history_generation(ctx, t, 4 if not deep else 12)
     _history_fitting(ctx, 2 if not deep else 8)
     ctx.extra["corr_obligations"] = 1
     ctx.extra["corr_discharged"] = int(not [d for d in ctx.disagreements if d["name"].startswith("trace")])
